@@ -46,6 +46,7 @@ impl Clone for CelBytes { #[verifier::external_body] fn clone(&self) -> (r: Self
 impl Clone for CelByteCode { #[verifier::external_body] fn clone(&self) -> (r: Self) ensures r == *self { unimplemented!() } }
 impl Clone for ByteCode { #[verifier::external_body] fn clone(&self) -> (r: Self) ensures r == *self { unimplemented!() } }
 impl Clone for JmpWhen { #[verifier::external_body] fn clone(&self) -> (r: Self) ensures r == *self { unimplemented!() } }
+impl View for CelBytes { type V = Seq<u8>; closed spec fn view(&self) -> Seq<u8> { self.inner@ } }
 impl std::fmt::Debug for CelValue { #[verifier::external_body] fn fmt(&self, f: &mut std::fmt::Formatter<'_>) -> std::fmt::Result { unimplemented!() } }
 impl std::fmt::Display for CelValue { #[verifier::external_body] fn fmt(&self, f: &mut std::fmt::Formatter<'_>) -> std::fmt::Result { unimplemented!() } }
 impl std::fmt::Debug for CelError { #[verifier::external_body] fn fmt(&self, f: &mut std::fmt::Formatter<'_>) -> std::fmt::Result { unimplemented!() } }
@@ -208,3 +209,64 @@ pub broadcast axiom fn axiom_string_key_model() ensures #[trigger] vstd::std_spe
 pub use ax::into_iter_seq;
 broadcast use {vstd::std_specs::hash::group_hash_axioms, ax::axiom_string_key_model, ax::axiom_vec_into_iter_seq};
 '''
+
+
+TRUTHY_SPEC = r'''
+/// truthiness, from the statement: non-zero numbers, true, non-empty strings/bytes/lists/maps, types, timestamps and durations are
+/// truthy; zero, false, empties, null and failures are not (values of kinds the statement does not list -- idents, code blocks -- are not)
+pub uninterp spec fn f64_is_zero(f: f64) -> bool;
+pub uninterp spec fn dyn_truthy(d: DynArc) -> bool;
+pub open spec fn spec_truthy(v: CelValue) -> bool {
+    match v {
+        CelValue::Int(i) => i != 0,
+        CelValue::UInt(u) => u != 0,
+        CelValue::Float(f) => !f64_is_zero(f),
+        CelValue::Bool(b) => b,
+        CelValue::String(s) => s@.len() != 0,
+        CelValue::Bytes(b) => b@.len() != 0,
+        CelValue::List(l) => l@.len() != 0,
+        CelValue::Map(m) => m@.len() != 0,
+        CelValue::Null => false,
+        CelValue::Type(_) => true,
+        CelValue::TimeStamp(_) => true,
+        CelValue::Duration(_) => true,
+        CelValue::Dyn(d) => dyn_truthy(d),
+        CelValue::Err(_) => false,
+        _ => false,
+    }
+}
+
+'''
+
+
+# the CelValueDyn trait restated in full (minus supertraits and any_ref); DynArc = Arc<dyn CelValueDyn>
+TRAIT_FULL = r'''
+pub trait CelValueDyn {
+    fn as_type(&self) -> CelValue;
+    fn access(&self, key: &str) -> CelValue;
+    fn eq(&self, rhs: &CelValue) -> CelValue;
+    fn is_truthy(&self) -> bool;
+}
+impl DynArc {
+    #[verifier::external_body] pub fn as_type(&self) -> CelValue { unimplemented!() }
+    #[verifier::external_body] pub fn access(&self, key: &str) -> CelValue { unimplemented!() }
+    #[verifier::external_body] pub fn eq(&self, rhs: &CelValue) -> CelValue { unimplemented!() }
+    #[verifier::external_body] pub fn is_truthy(&self) -> (r: bool) ensures r == dyn_truthy(*self) { unimplemented!() }
+}
+'''
+
+CTORS.update({
+    'from_string': 'r == CelValue::String(val)',
+    'is_null': 'r == (self is Null)',
+    'is_true': 'r == (self == CelValue::Bool(true))',
+    'from_list': 'r == CelValue::List(val)',
+    'from_map': 'r == CelValue::Map(val)',
+    'from_timestamp': 'r == CelValue::TimeStamp(val)',
+    'from_duration': 'r == CelValue::Duration(val)',
+})
+
+
+def ambient(names=None):
+    """contract-only stubs of the trivial CelValue helpers (their bodies are verified in units value_arith / value_cmp)"""
+    names = names or list(CTORS)
+    return {n: simple_ctor(CTORS[n], stub=True) for n in names}
